@@ -580,7 +580,8 @@ impl<H: DnsHandle> DnssecDnsHandle<H> {
         }
 
         // if it was just the root DNSKEYS with no RRSIG, we'll accept the entire set, or none
-        if dnskey_proofs.iter().all(|(proof, ..)| proof.is_secure()) {
+        if !dnskey_proofs.is_empty() && dnskey_proofs.iter().all(|(proof, ..)| proof.is_secure())
+        {
             let proof = dnskey_proofs.pop().unwrap(/* This can not happen due to above test */);
             return Ok(RrsetProof {
                 proof: proof.0,
